@@ -361,7 +361,10 @@ harness.tier = "quick"
 
 
 PAIRS = [("rec(x, k=2)", "rec(x, k=3)"), ("rec(x, 2)", "rec(x, 3)"), ("rec(x, k='a')", "rec(x, k='b')"), ("rec(x, k='a')", 'rec(x, k="a")'), ("rec(x, k=z)", "rec(x, j=z)"), ("rec(x)", "rec2(x)"),
-         ("rec(x, k=True)", "rec(x, k=False)"), ("rec(x, 2, k=1)", "rec(x, 2, k=2)"), ("rec(rec2(x, 1))", "rec(rec2(x, 2))"), ("rec(x, k=None)", "rec(x)"), ("I(x + 1)", "I(x + 2)"), ("rec(x, k=z)", "rec(z, k=x)")]
+         ("rec(x, k=True)", "rec(x, k=False)"), ("rec(x, 2, k=1)", "rec(x, 2, k=2)"), ("rec(rec2(x, 1))", "rec(rec2(x, 2))"), ("rec(x, k=None)", "rec(x)"), ("I(x + 1)", "I(x + 2)"), ("rec(x, k=z)", "rec(z, k=x)"),
+         # the same operands in another order are another text (for strings '+' is concatenation), other operators, other nesting
+         ("rec(x + z)", "rec(z + x)"), ("I(x * z)", "I(z * x)"), ("I(x - z)", "I(z - x)"), ("I(x + z)", "I(x - z)"), ("rec(x, z)", "rec(z, x)"), ("rec(x, k=1, j=2)", "rec(x, k=2, j=1)"),
+         ("I((x + z) * 2)", "I(x + z * 2)"), ("rec(x == 1)", "rec(x != 1)"), ("rec(x < z)", "rec(x <= z)"), ("rec(-x)", "rec(x)"), ("rec(x, 'a b')", "rec(x, 'a  b')")]
 
 
 def distinct_calls(rep):
